@@ -211,20 +211,20 @@ package table
 //@   modifies nothing
 
 //@ func (t *Table) UpdateTTL(hkey uint64, value storage.Entry) error
-//@   props C11 C09
+//@   props C11 C09 C04
 //@   flag bstr_ext
 //@   requires #inv_in: t.inv()
 //@   requires #entry: value != nil
 //@   ensures  #found: (result == nil) == t.has(hkey)
 //@   ensures  #err_kind: result == nil || result == ErrHKeyNotFound
-//@   ensures  #ttl [C09 C11] local: result == nil ==> be64(t.memory, t.off(hkey)+1+t.klen(hkey)) == uint64(value.ttl)
-//@   ensures  #ts [C09 C11] local: result == nil ==> be64(t.memory, t.off(hkey)+9+t.klen(hkey)) == uint64(value.timestamp)
+//@   ensures  #ttl [C09 C11 C04] local: result == nil ==> be64(t.memory, t.off(hkey)+1+t.klen(hkey)) == uint64(value.ttl)
+//@   ensures  #ts [C09 C11 C04] local: result == nil ==> be64(t.memory, t.off(hkey)+9+t.klen(hkey)) == uint64(value.timestamp)
 //@   ensures  #only_meta [C09 C11] local: forall i int :: 0 <= i && i < len(t.memory) &&
 //@                !(t.has(hkey) && t.off(hkey)+1+t.klen(hkey) <= i && i < t.off(hkey)+25+t.klen(hkey)) ==> t.memory[i] == old(t.memory[i])
 //@   ensures  #sizes_kept [C11] local: forall h uint64 {dom(t.hkeys)[h]} :: t.has(h) ==> t.sizeAt(t.hkeys[h]) == old(t.sizeAt(t.hkeys[h]))
 //@   ensures  #inv_out: t.inv()
-//@   ensures  #a_ttl [C09 C11]: result == nil ==> t.ttlOf(hkey) == value.ttl && t.tsOf(hkey) == value.timestamp
-//@   ensures  #a_kv [C09 C11]: forall h uint64 :: t.has(h) ==> t.keyOf(h) == old(t.keyOf(h)) && t.valOf(h) == old(t.valOf(h)) && t.size(h) == old(t.size(h))
+//@   ensures  #a_ttl [C09 C11 C04]: result == nil ==> t.ttlOf(hkey) == value.ttl && t.tsOf(hkey) == value.timestamp
+//@   ensures  #a_kv [C09 C11 C04]: forall h uint64 :: t.has(h) ==> t.keyOf(h) == old(t.keyOf(h)) && t.valOf(h) == old(t.valOf(h)) && t.size(h) == old(t.size(h))
 //@   ensures  #a_meta [C09 C11]: forall h uint64 :: t.has(h) && h != hkey ==> t.ttlOf(h) == old(t.ttlOf(h)) && t.tsOf(h) == old(t.tsOf(h)) && t.laOf(h) == old(t.laOf(h))
 //@   modifies elems(t.memory)
 
